@@ -227,6 +227,75 @@ def _insert_only_in_accept_path(ctx):
     for x in ins:
         roots |= writer_roots(facts, x)
     ctx.ob("R10.1", "insert|only-in-accept-path", all(x.startswith(srv.HNC) for x in roots) and len(ins) == 1, "the connection map grows only in %s (on behalf of %s)" % (sorted(ins), sorted(roots)))
+    _fresh_test_per_insert(ctx)
+
+
+def _fresh_test_per_insert(ctx):
+    """The capacity test speaks about the map as it is when it is made: one insertion later it is stale.  So no
+    control-flow cycle may lead from one insertion to the next without passing the test again.  Growing code =
+    the insertion itself, or a call of / a closure from a function that grows the map and contains no test of
+    its own (a function with its own test -- handle_new_connection today -- is decided by the path clauses)."""
+    from .util import local_callee
+    from .c03 import sub_cycles
+    facts = ctx.facts
+
+    def is_insert(t):
+        p = t["callee"].get("path") or ""
+        return "HashMap" in p and last_seg(p) in ("insert", "entry", "extend", "try_insert") and "ClientConnection" in (t["callee"].get("full") or "")
+
+    def is_test(t):
+        p = t["callee"].get("path") or ""
+        return "HashMap" in p and last_seg(p) == "len" and "ClientConnection" in (t["callee"].get("full") or "")
+
+    tests = {f.name: {bb for bb, t in f.calls() if is_test(t)} for f in facts.fns.values()}
+    # a helper that makes the test (is_full(), has_room(), ...) and inserts nothing: calling it is testing
+    inserting = {f.name for f in facts.fns.values() if any(is_insert(t) for _bb, t in f.calls())}
+    more = True
+    while more:
+        more = False
+        for f in facts.fns.values():
+            for bb, t in f.calls():
+                g_ = local_callee(t)
+                if g_ in tests and tests[g_] and g_ not in inserting and g_ != f.name and not facts.closures_of(g_) and len(facts.fns[g_].cyclic_blocks()) == 0 and bb not in tests[f.name]:
+                    if g_.startswith(S) and not g_.startswith(srv.HNC) and g_ != srv.REQUESTS:
+                        tests[f.name].add(bb)
+                        more = True
+    grow = {}
+    untested = set()
+    changed = True
+    while changed:
+        changed = False
+        for f in facts.fns.values():
+            g = set()
+            for bb, t in f.calls():
+                if is_insert(t) or local_callee(t) in untested:
+                    g.add(bb)
+            for bi, b in enumerate(f.blocks):
+                if bi not in f.reachable or b["cleanup"]:
+                    continue
+                for s in b["stmts"]:
+                    rv = s.get("rv") if s.get("k") == "assign" else None
+                    if rv and rv.get("k") == "aggregate" and rv.get("agg") == "closure" and rv.get("path") in untested:
+                        g.add(bi)
+            if g != grow.get(f.name, set()):
+                grow[f.name] = g
+                changed = True
+            if g and not tests[f.name] and f.name not in untested:
+                untested.add(f.name)
+                changed = True
+    n = 0
+    for name, g in sorted(grow.items()):
+        if not g:
+            continue
+        f = facts.fns[name]
+        ctx.touched(f)
+        n += 1
+        stale = set()
+        for comp in sub_cycles(f, set(f.reachable) - tests[name]):
+            stale |= set(comp) & g
+        bb = min(stale) if stale else min(g)
+        ctx.ob("R10.1", "insert|fresh-test-per-insert|" + name, not stale, "no cycle of %s leads from one growth of the connection map to the next without testing connections.len() again (%d growing block(s), %d testing block(s))" % (name, len(g), len(tests[name])), f.loc(bb))
+    ctx.ob("R10.1", "insert|fresh-test-per-insert|floor", n >= 1, "%d function(s) contain code that grows the connection map" % n)
 
 
 def refusal(ctx):
